@@ -1922,7 +1922,9 @@ def summarise_writer_run(seg, sc, k):
             desc = [seg[last_open].get("n"), (seg[last_open].get("comment") or {}).get("id")]
             for e in ents:
                 desc.append([e.get("r"), (e.get("name") or {}).get("id"), e.get("method"), e.get("usize"), e.get("crc"), e.get("mode"),
-                             e.get("date"), e.get("time"), e.get("rc"), e.get("content"), e.get("extra")])
+                             e.get("date"), e.get("time"), e.get("rc"), e.get("content"), e.get("extra"),
+                             # the stored bytes themselves (by_index_raw): an entry this crate cannot decode has no other content to compare
+                             e.get("rraw"), e.get("rawlen"), e.get("rawcrc")])
             outcome = vlib.digest(desc)
             finished = True
     first_err = next((e.get("ev") + ": " + str(e.get("msg")) for e in calls if e.get("r") in ("err", "panic")), "")
